@@ -383,13 +383,48 @@ Fixpoint has_assert (r : re) : bool :=
   | _ => false
   end.
 
-(* pattern shapes for which today's translation is proved exact (RegexProofs.v): a pure literal; an expression without
-   position assertions that matches the empty string (it matches everything); ^literal *)
-Inductive shape := ShLiteral | ShMatchAll | ShBeginLiteral | ShOther.
-Definition shape_of (r : re) : shape :=
+(* can match the empty string (syntactically; for an expression without position assertions this is exact) *)
+Fixpoint nullable (r : re) : bool :=
   match r with
-  | RLit false (_ :: _) => ShLiteral
-  | RConcat [RBeginText; RLit false (_ :: _)] => ShBeginLiteral
-  | _ => if negb (has_assert r) && unanch r [] then ShMatchAll else ShOther
+  | REmpty => true
+  | RLit _ l => match l with [] => true | _ => false end
+  | RCapture a | RPlus a => nullable a
+  | RStar _ | RQuest _ => true
+  | RRepeat mn _ a => match mn with O => true | _ => nullable a end
+  | RConcat rs => forallb nullable rs
+  | RAlt rs => existsb nullable rs
+  | _ => false
+  end.
+
+(* pattern shapes for which today's translation is proved exact (RegexProofs.v): a pure literal; an expression without
+   position assertions that can match the empty string (it matches everything); ^literal; ^(lit|lit|...)$ *)
+Inductive shape := ShLiteral | ShMatchAll | ShBeginLiteral | ShOther.
+Definition as_literal (r : re) : option (list N) :=
+  match r with RLit false (c :: l) => Some (c :: l) | _ => None end.
+Definition as_begin_literal (r : re) : option (list N) :=
+  match r with
+  | RConcat [RBeginText; b] => match as_literal b with Some l => if plainb l then Some l else None | None => None end
+  | _ => None
+  end.
+Definition shape_of (r : re) : shape :=
+  match as_literal r with
+  | Some _ => ShLiteral
+  | None => match as_begin_literal r with
+            | Some _ => ShBeginLiteral
+            | None => if negb (has_assert r) && nullable r then ShMatchAll else ShOther
+            end
   end.
 Definition exact_shape (r : re) : bool := match shape_of r with ShOther => false | _ => true end.
+
+(* ------------------------------------------------------------------------------------------------ atoms of the index model *)
+(* The index model (Model.v) takes the meaning of regex atoms as a function  pattern number -> value number -> bool
+   (value 0 = the empty string / the absent tag). With a table of pattern trees and a table of value strings the two
+   concrete meanings are: *)
+Definition pat_of (pats : list (N * re)) (n : N) : re :=
+  match find (fun x => (fst x =? n)%N) pats with Some x => snd x | None => RClass [] end.
+Definition str_of (strs : list (N * list N)) (v : N) : option (list N) :=
+  if (v =? 0)%N then None else match find (fun x => (fst x =? v)%N) strs with Some x => Some (snd x) | None => Some [] end.
+Definition am_current (pats : list (N * re)) (strs : list (N * list N)) (p v : N) : bool :=
+  current_match (pat_of pats p) (str_of strs v).
+Definition am_repaired (pats : list (N * re)) (strs : list (N * list N)) (p v : N) : bool :=
+  repaired_match (pat_of pats p) (str_of strs v).
